@@ -61,8 +61,20 @@ def make_case(seed, tier):
         'max_finished_executions': mfe,
         'batch_size': rng.choice([0, 0, 1, 2, n]),
         'ignored_states': rng.choice([[], [], ['ERROR'], ['SUCCESS'],
-                                      ['ERROR', 'CANCELLED']]),
+                                      ['ERROR', 'CANCELLED'],
+                                      ['SUCCESS', 'ERROR'],
+                                      ['SUCCESS', 'ERROR', 'CANCELLED']]),
     }
+    if rng.random() < 0.2:
+        # storage fault: deleting one particular root execution fails
+        # (lock wait timeout, cascade depth ...), always or the first k times
+        cands = [i for i, t in enumerate(case['trees'])
+                 if t['state'] in TERMINAL and
+                 t['state'] not in case['settings']['ignored_states']]
+        case['delete_fault'] = {
+            'root': rng.choice(cands) if cands and rng.random() < 0.9
+            else rng.randrange(n),
+            'times': rng.choice([None, None, 1, 2])}
     case['concurrent'] = rng.random() < 0.16
     if case['concurrent']:
         pc, _ = progcase.program_case(seed, progcase.CORE + ('subwf',),
@@ -87,11 +99,15 @@ class Runner18(runner.Runner):
         self.created = {}      # label -> ids
         self.passes = []
         self.pass_errors = []
+        self.patch = []
+        self.fetches = 0
+        self.delete_faults_fired = 0
         base_now = sim.now
         roots = []
         for i, tree in enumerate(case['trees']):
             roots.append(self._create_tree(tree, 'r%d' % i, None, None))
         sim.set_now(base_now)
+        self._install_faults(roots)
         s = case['settings']
         for k, v in s.items():
             self.world._override(k, v, 'execution_expiration_policy')
@@ -103,6 +119,58 @@ class Runner18(runner.Runner):
             self.pending_ops = []
             self.pending_faults = []
             self._spawn_pass(0)
+
+    def _install_faults(self, roots):
+        m = world.M
+        case = self.case
+        me = self
+        n = max(1, len(case['trees']))
+        limit = 6 * n + 30
+
+        def counting(name):
+            orig = getattr(m.db_api, name)
+
+            def fetch(*a, **kw):
+                me.fetches += 1
+                if me.fetches > limit:
+                    raise NoTermination(
+                        '%d batches fetched for a population of %d root '
+                        'executions' % (me.fetches, n))
+                return orig(*a, **kw)
+
+            me.patch.append((m.db_api, name, orig))
+            setattr(m.db_api, name, fetch)
+
+        counting('get_expired_executions')
+        counting('get_superfluous_executions')
+        df = case.get('delete_fault')
+        if df:
+            victim = roots[df['root'] % len(roots)]['id']
+            left = [df.get('times')]
+            orig_del = m.db_api.delete_workflow_execution
+
+            def delete_workflow_execution(id, *a, **kw):
+                if id == victim and (left[0] is None or left[0] > 0):
+                    if left[0] is not None:
+                        left[0] -= 1
+                    me.delete_faults_fired += 1
+                    me.sim.count('fault:delete_fails')
+                    from oslo_db import exception as db_exc
+                    raise db_exc.DBError('Lock wait timeout exceeded; try '
+                                         'restarting transaction')
+                return orig_del(id, *a, **kw)
+
+            self.patch.append((m.db_api, 'delete_workflow_execution',
+                               orig_del))
+            m.db_api.delete_workflow_execution = delete_workflow_execution
+
+    def unpatch(self):
+        for obj, name, val in reversed(getattr(self, 'patch', [])):
+            setattr(obj, name, val)
+        self.patch = []
+        sup = getattr(super(Runner18, self), 'unpatch', None)
+        if sup:
+            sup()
 
     def _create_tree(self, tree, label, parent_task_id, root_id):
         m = world.M
@@ -177,9 +245,14 @@ class Runner18(runner.Runner):
                 is_admin=True)
             m.auth_ctx.set_ctx(ctx)
             err = None
+            f0 = me.delete_faults_fired
+            me.fetches = 0
             try:
                 m.expiration_policy.run_execution_expiration_policy(None,
                                                                     ctx)
+            except NoTermination as e:
+                err = e
+                me.pass_errors.append(e)
             except Exception as e:
                 err = e
                 me.pass_errors.append(e)
@@ -192,7 +265,8 @@ class Runner18(runner.Runner):
                     except Exception:
                         pass
             me.passes.append({'before': before, 'after': me._ids(),
-                              'now': sim.now, 'error': err})
+                              'now': sim.now, 'error': err,
+                              'delete_faults': me.delete_faults_fired - f0})
 
         sim.spawn('expiration', run_pass, node=self.world.api_node,
                   kind='periodic')
@@ -254,8 +328,16 @@ class Runner18(runner.Runner):
         res.extra['final'] = self._ids()
 
 
+class NoTermination(BaseException):
+    pass
+
+
 def execute(case):
-    return Runner18(case).run()
+    r = Runner18(case)
+    try:
+        return r.run()
+    finally:
+        r.unpatch()
 
 
 def _parse(ts):
@@ -278,7 +360,18 @@ def evaluate(case, res):
         ' concurrent' if case.get('concurrent') else '')
     ignored = set(s['ignored_states'])
     for p in res.extra['passes']:
-        if p['error'] is not None:
+        if isinstance(p['error'], NoTermination):
+            out.append(('C18.pass_failed',
+                        'evaluation does not terminate: %s (%d failing '
+                        'deletes injected)' % (p['error'],
+                                               p.get('delete_faults', 0)),
+                        sig + ' no_termination'))
+        elif p['error'] is not None and p.get('delete_faults'):
+            # a delete failed because of the injected storage fault: the
+            # evaluation may give up with an error (its open batch is rolled
+            # back); safety and completeness below still apply
+            continue
+        elif p['error'] is not None:
             out.append(('C18.pass_failed',
                         'evaluation raised %s: %s' % (
                             type(p['error']).__name__, str(p['error'])[:200]),
@@ -363,7 +456,7 @@ def evaluate(case, res):
             (wid, w) for wid, w in before['wf'].items()
             if w['parent_task'] is None and w['state'] in TERMINAL and
             w['state'] not in ignored)
-        if case.get('concurrent'):
+        if case.get('concurrent') or p.get('delete_faults'):
             continue
         # ---- exact model
         exp_time = None
@@ -421,6 +514,9 @@ def probes(case, res):
         'older_than_unset': int(case['settings']['older_than'] is None),
         'concurrent': int(bool(case.get('concurrent'))),
         'passes': len(ps),
+        'delete_faults': sum(p.get('delete_faults', 0) for p in ps),
+        'all_states_ignored': int(len(case['settings']['ignored_states'])
+                                  == 3),
     }
 
 
